@@ -115,7 +115,9 @@ pub fn set_disk_fault(f: Option<&crate::scenario::DiskFault>) {
                 } as usize,
                 Ordering::SeqCst,
             );
-            FAULT_OP.store(match f.op.as_str() { "read" => 1, "open" => 2, "stat" => 3, "seek" => 4, _ => 0 }, Ordering::SeqCst);
+            // (op "touch": not a failure - right before the nth stat the owner gives the file a new
+            // modification time, as a deploy or `touch` landing inside a request does)
+            FAULT_OP.store(match f.op.as_str() { "read" => 1, "open" => 2, "stat" => 3, "seek" => 4, "touch" => 5, _ => 0 }, Ordering::SeqCst);
         }
     }
 }
@@ -445,6 +447,26 @@ pub unsafe extern "C" fn statx(dirfd: c_int, path: *const c_char, flags: c_int, 
     io_point("stat");
     if let Some(r) = disk_fault(3, -1) {
         return r as c_int;
+    }
+    if FAULT_OP.load(Ordering::Relaxed) == 5 && !std::thread::panicking() && crate::rt::WORLD.get().is_some() {
+        let c = FAULT_COUNT.fetch_add(1, Ordering::SeqCst) + 1;
+        if c == FAULT_NTH.load(Ordering::Relaxed) {
+            // regular files only (directories keep their times: the walk of a path stats them too)
+            let mut sx: libc::statx = std::mem::zeroed();
+            if libc::syscall(libc::SYS_statx, dirfd, path, flags, libc::STATX_TYPE, &mut sx as *mut libc::statx) == 0 && (sx.stx_mode as u32 & libc::S_IFMT) == libc::S_IFREG {
+                let t = libc::timespec { tv_sec: 1_900_000_000 + c as i64, tv_nsec: 123_456_789 };
+                let ts = [t, t];
+                let empty = path.is_null() || *path == 0;
+                let p = if empty { std::ptr::null() } else { path };
+                libc::syscall(libc::SYS_utimensat, dirfd, p, ts.as_ptr(), 0);
+                if let Some(w) = crate::rt::WORLD.get() {
+                    w.disk_fault_fired(5, 0);
+                }
+            } else {
+                // not a regular file: the next stat is the one
+                FAULT_COUNT.fetch_sub(1, Ordering::SeqCst);
+            }
+        }
     }
     libc::syscall(libc::SYS_statx, dirfd, path, flags, mask, buf) as c_int
 }
